@@ -610,7 +610,7 @@ def run_scenario(name, seed):
 
 
 def plan(tier, seed):
-    reps = 2 if tier == "quick" else 14
+    reps = 2 if tier == "quick" else 20
     jobs = []
     for name in SCENARIOS:
         k = 1 if name in ("newline-name", "large-600") else (max(reps, 4) if name == "delete-rename" else reps)
@@ -706,7 +706,7 @@ def run(tier, seed):
         res.broken_tie("git-ai build", out[-3000:])
         return res.finish()
     corpus = os.path.join(C.VERIF, "corpus", "C05", "cases.jsonl")
-    n1, n2 = (3000, 250) if tier == "quick" else (120000, 4000)
+    n1, n2 = (3000, 250) if tier == "quick" else (120000, 6000)
     bad1, _ = C.phase_suite(res, "c05", seed, n1, corpus)
     bad2, _ = C.phase_suite(res, "c05repo", seed, n2, corpus)
     bad3 = phase_e2e(res, tier, seed)
